@@ -1,5 +1,6 @@
 (* C06.v — executable model of UxDataArray.integrate (uxarray/core/dataarray.py):
-     dispatch on values.shape[-1] against n_face / n_node / n_edge (in that order),
+     dims[-1] == "n_node" / "n_edge" raise first (since fix 3b40859b), then dispatch on
+     values.shape[-1] against n_face / n_node / n_edge (in that order),
      np.einsum("i,...i", face_areas, values), result built with dims[:-1], the same name and grid.
    Arrays are row-major flat lists with a shape; numbers are integers over a common power-of-two
    denominator chosen by the caller (every float is a dyadic rational, so areas and data are
@@ -46,9 +47,9 @@ Definition c06_einsum (areas : list Z) (shape : list Z) (data : list Z) : list Z
   let k := Z.to_nat (c06_prod (removelast shape)) in
   map (c06_dot areas) (c06_rows m k data).
 
-(* byname = false: the code as it is (size dispatch only).
-   byname = true: the repaired dispatch: a last dimension NAMED n_node / n_edge is rejected before
-   sizes are compared. *)
+(* byname = true: the code as it is (since fix 3b40859b): a last dimension NAMED n_node / n_edge is
+   rejected before sizes are compared (0-d data: dims[-1] raises IndexError first).
+   byname = false: the code before the fix (size dispatch only), kept as a record of the defect. *)
 Definition c06_integrate (byname : bool) (g : c06_counts) (areas : list Z) (a : c06_arr) : c06_result :=
   match rev (c06_shape a) with
   | [] => C06_index_error
@@ -66,6 +67,9 @@ Definition c06_integrate (byname : bool) (g : c06_counts) (areas : list Z) (a : 
       else if lastsz =? c06_nedge g then C06_edge_error
       else C06_size_error
   end.
+
+(* UxDataArray.integrate of the current tree *)
+Definition c06_integrate_cur : c06_counts -> list Z -> c06_arr -> c06_result := c06_integrate true.
 
 (* ---- specification side ---- *)
 
